@@ -196,3 +196,9 @@ package req
 //@   ensures result.Self == 48 && result.Peer == 49 && result.SelfName == "req" && result.PeerName == "rep"
 //@
 // ---- end generated Info contracts ----
+
+// ---- round 9 (C03): a request that is only queued is not yet eligible for replies: the id is entered
+// into the lookup table by send(), at the moment of the first transmission, never by SendMsg itself ----
+//@ func (*context).SendMsg
+//@   before call:send#1 assert s.ctxByID == at("call:cancelSend#1", s.ctxByID)
+//@   before call:send#2 assert s.ctxByID == at("call:cancelSend#1", s.ctxByID)
